@@ -1,28 +1,30 @@
 (* C15 — property theorems only.  Each is closed by [exact] of a lemma proved in C15/Proofs*.v
    and followed by Print Assumptions.  A history is any list of events (an event that is not
-   enabled is skipped), the state is [run init h]; [x] is the record of context number [c]. *)
-From MV Require Import C04.Model C15.Model C15.ProofsCtx C15.ProofsSys C15.ProofsPipe C15.ProofsLeak.
+   enabled is skipped), the state is [run (initf f) h] where [f] says which optional callbacks of the
+   handle are installed (cb_conn, cb_msg, cb_close, cb_release, cb_add_ctx, cb_wake: every theorem
+   holds for every configuration; [init] = [initf all_cb]); [x] is the record of context number [c]. *)
+From MV Require Import C04.Model C15.Model C15.ProofsCtx C15.ProofsSys C15.ProofsPipe C15.ProofsLeak C15.ProofsWake C15.ProofsCb.
 
 (* each context is announced (cb_conn / cb_add_ctx) at most once *)
-Theorem sock_announced_once : forall h c x,
-  nth_error (ctxs (run init h)) c = Some x -> (k_ann x <= 1)%nat.
+Theorem sock_announced_once : forall f h c x,
+  nth_error (ctxs (run (initf f) h)) c = Some x -> (k_ann x <= 1)%nat.
 Proof. exact announced_once. Qed.
 Print Assumptions sock_announced_once.
 
 (* concatenation of what muggle_socket_ctx_read handed to cb_msg = a prefix of the bytes the peer
    sent, for any fragmentation of sends and reads, and all of them once read returned 0 at the
    end of the peer's stream *)
-Theorem sock_bytes_in_order : forall h c x,
-  nth_error (ctxs (run init h)) c = Some x ->
-  (exists rest, sent (run init h) (k_conn x) = k_got x ++ rest) /\
-  (k_eof x = true -> k_got x = sent (run init h) (k_conn x)).
+Theorem sock_bytes_in_order : forall f h c x,
+  nth_error (ctxs (run (initf f) h)) c = Some x ->
+  (exists rest, sent (run (initf f) h) (k_conn x) = k_got x ++ rest) /\
+  (k_eof x = true -> k_got x = sent (run (initf f) h) (k_conn x)).
 Proof. exact bytes_in_order. Qed.
 Print Assumptions sock_bytes_in_order.
 
 (* cb_close, release (cb_release or the worker-side duty), descriptor close and free happen at
    most once each; memory of a context anyone could see is given back only at count zero *)
-Theorem sock_freed_exactly_once_at_zero : forall h c x,
-  nth_error (ctxs (run init h)) c = Some x ->
+Theorem sock_freed_exactly_once_at_zero : forall f h c x,
+  nth_error (ctxs (run (initf f) h)) c = Some x ->
   (k_ncl x <= 1 /\ k_nrel x <= 1 /\ k_nfdc x <= 1 /\ k_nfree x <= 1)%nat /\
   (k_freed x = true -> k_nfree x = 1%nat /\ (k_ref x = 0%Z \/ k_pub x = false)) /\
   (k_freed x = false -> k_nfree x = 0%nat) /\
@@ -31,8 +33,8 @@ Proof. exact freed_once. Qed.
 Print Assumptions sock_freed_exactly_once_at_zero.
 
 (* nothing dereferences a context after its release or free *)
-Theorem sock_no_use_after_release : forall h c x,
-  nth_error (ctxs (run init h)) c = Some x -> k_uar x = 0%nat.
+Theorem sock_no_use_after_release : forall f h c x,
+  nth_error (ctxs (run (initf f) h)) c = Some x -> k_uar x = 0%nat.
 Proof. exact no_use_after_release. Qed.
 Print Assumptions sock_no_use_after_release.
 
@@ -51,8 +53,8 @@ Print Assumptions pipe_exactly_once_per_writer_order.
 (* every context ever allocated is closed and freed exactly once, once muggle_evloop_run has
    returned (clear + exit drained ctx_list and the hand-over queue), the workers have released
    and finished their release duty, and no context was left un-handed with the user *)
-Theorem sock_no_leak_at_exit : forall h,
-  let s := run init h in
+Theorem sock_no_leak_at_exit : forall f h,
+  let s := run (initf f) h in
   pc s = PDone ->
   (forall c x, nth_error (ctxs s) c = Some x -> k_loc x <> LUser /\ k_work x = 0%nat /\ k_wfin x = 0%nat) ->
   forall c x, nth_error (ctxs s) c = Some x ->
@@ -63,8 +65,8 @@ Print Assumptions sock_no_leak_at_exit.
 (* on_wake drains the whole hand-over queue: when it leaves its while loop (mutex released,
    cb_wake due) the queue is empty and no context is left in the queued position, however many
    muggle_socket_evloop_add_ctx calls coalesced into the wake-up; for every history *)
-Theorem handover_queue_drained_per_wake : forall h s' r,
-  step (run init h) ETauWakeUnlock = Some (s', r) ->
+Theorem handover_queue_drained_per_wake : forall f h s' r,
+  step (run (initf f) h) ETauWakeUnlock = Some (s', r) ->
   queue s' = [] /\ pc s' = PWakeCb /\
   forall c x, nth_error (ctxs s') c = Some x -> k_loc x <> LQueue.
 Proof. exact queue_drained_per_wake. Qed.
@@ -85,11 +87,79 @@ Print Assumptions handover_registered_in_queue_order.
    and whose connection was not reset gets cb_close only after cb_msg has read everything the
    peer sent.  The model's dispatch step is the common shape of the select, poll and epoll loops
    (readable => cb_read first, flag tested afterwards). *)
-Theorem bytes_delivered_before_close_on_hup : forall h c x s' r,
-  let s := run init h in
+Theorem bytes_delivered_before_close_on_hup : forall f h c x s' r,
+  let s := run (initf f) h in
   step s (EClose c) = Some (s', r) ->
   nth_error (ctxs s) c = Some x ->
   k_flag x = false -> preset s (k_conn x) = false ->
   pclosed s (k_conn x) = true /\ k_got x = sent s (k_conn x).
 Proof. exact close_on_hup_after_all_bytes. Qed.
 Print Assumptions bytes_delivered_before_close_on_hup.
+
+(* the wake-up protocol of the hand-over queue (muggle_socket_evloop_add_ctx: enqueue, then write the
+   event signal; *_handle_wakeup: clear the signal, then on_wake drains the queue), for every
+   interleaving of the loop thread, the handing threads, workers and peers: a queued context has its
+   own signaller still in flight, or the signal is set, or a wake-up handling that has cleared the
+   signal and not yet left on_wake's queue loop is in progress, or the loop has left its run loop
+   (on_exit takes the queue) *)
+Theorem handover_never_stranded : forall f h c,
+  let s := run (initf f) h in
+  In c (queue s) ->
+  In c (sigdue s) \/ wsig s = true \/ wake_due (pc s) = true \/ after_break (pc s) = true.
+Proof. exact queued_implies_wake_pending. Qed.
+Print Assumptions handover_never_stranded.
+
+(* the same for every context record whose position is "in the hand-over queue" *)
+Theorem handover_queued_position_covered : forall f h c x,
+  let s := run (initf f) h in
+  nth_error (ctxs s) c = Some x -> k_loc x = LQueue ->
+  In c (sigdue s) \/ wsig s = true \/ wake_due (pc s) = true \/ after_break (pc s) = true.
+Proof. exact queued_position_implies_wake_pending. Qed.
+Print Assumptions handover_queued_position_covered.
+
+(* liveness-style corollary: when the loop thread blocks (its back-end's wait finds nothing ready,
+   the event signal is not set) the only contexts still queued belong to hand-overs that have not
+   yet written their wake-up; a context whose muggle_socket_evloop_add_ctx has returned is
+   registered (and announced, or released if its registration failed) before the loop sleeps *)
+Theorem loop_sleeps_only_without_completed_handover : forall f h s' r,
+  step (run (initf f) h) ESleep = Some (s', r) ->
+  s' = run (initf f) h /\
+  (forall c, In c (queue s') -> In c (sigdue s')) /\
+  (forall c x, nth_error (ctxs s') c = Some x -> k_loc x = LQueue -> In c (sigdue s')).
+Proof. exact ProofsWake.loop_sleeps_only_without_completed_handover. Qed.
+Print Assumptions loop_sleeps_only_without_completed_handover.
+
+(* the order inside *_handle_wakeup: on_wake is entered only from the state the clear-up leaves,
+   and the clear-up leaves the signal unset with the queue untouched *)
+Theorem wake_handling_clears_signal_first : forall s,
+  (forall s' r, step s ETauWakeBegin = Some (s', r) -> pc s = PWakeClr /\ pc s' = PWake) /\
+  (forall s' r, step s ESigClear = Some (s', r) ->
+     pc s = PIdle /\ pc s' = PWakeClr /\ wsig s' = false /\ queue s' = queue s).
+Proof. exact ProofsWake.wake_handling_clears_signal_first. Qed.
+Print Assumptions wake_handling_clears_signal_first.
+
+(* the variant with the two halves swapped (wake callback first, clear-up afterwards; step_late)
+   violates handover_never_stranded: a hand-over landing between the drain and the clear-up stays
+   queued with the signal unset while the loop goes to sleep *)
+Theorem clearup_after_wake_callback_strands_handover :
+  exists h c,
+    let s := run_late init h in
+    In c (queue s) /\ ~ In c (sigdue s) /\ wsig s = false /\ wake_due (pc s) = false /\ after_break (pc s) = false /\
+    (exists t, step_late s ESleep = Some (t, 0%Z)).
+Proof. exact ProofsWake.clearup_after_wake_callback_strands_handover. Qed.
+Print Assumptions clearup_after_wake_callback_strands_handover.
+
+(* the application is told exactly what its configuration asks for, whatever the configuration: the flags never
+   change; no announcement is counted unless cb_conn or cb_add_ctx is installed and no cb_close unless cb_close is;
+   with both announcement callbacks installed every context sitting registered in the loop has been announced
+   exactly once.  (All theorems above quantify over the configuration as well: ownership, byte order, leaks
+   and the wake-up protocol do not depend on which callbacks exist.) *)
+Theorem callbacks_follow_configuration : forall f h c x,
+  let s := run (initf f) h in
+  nth_error (ctxs s) c = Some x ->
+  cbs s = f /\
+  ((f_conn f || f_addctx f)%bool = false -> k_ann x = 0%nat) /\
+  (f_close f = false -> k_ncl x = 0%nat) /\
+  ((f_conn f && f_addctx f)%bool = true -> k_loc x = LReg -> k_ann x = 1%nat).
+Proof. exact ProofsCb.callbacks_follow_configuration. Qed.
+Print Assumptions callbacks_follow_configuration.
